@@ -33,6 +33,8 @@ SCENARIOS = {
     "cold-same-3": ([1, 1, 1], [], False, 1 << 20),
     "mixed-3": ([1, 2, 1], [2], False, 700),
     "cold-equal-results-3-nocache": ([101, 102, 102], [], False, 0),
+    # the in-memory storage backend (no files, no cache): its tables are shared by the threads
+    "cold-diff-3-memstore": ([1, 2, 2], [], False, 0, "memory"),
 }
 
 
@@ -42,7 +44,8 @@ class Run:
         from twosigma.memento.storage_base import MemoryCache
         from . import fnlib, fnmod
         self.m, self.fnmod = m, fnmod
-        specs, pre, warm_cache, budget = SCENARIOS[name]
+        specs, pre, warm_cache, budget = SCENARIOS[name][:4]
+        kind = (SCENARIOS[name] + ("filesystem",))[4]
         self.specs = [spec(i) for i in specs]
         self.root = os.path.join(scratch, "c09")
         shutil.rmtree(self.root, ignore_errors=True)
@@ -54,7 +57,11 @@ class Run:
             for i in pre:
                 fnmod.n0(spec(i))
         del self.events[:]
-        self.backend = FilesystemStorageBackend(path=data, memory_cache_mb=budget / (1024.0 * 1024.0))
+        if kind == "memory":
+            from twosigma.memento.storage_memory import MemoryStorageBackend
+            self.backend = MemoryStorageBackend()
+        else:
+            self.backend = FilesystemStorageBackend(path=data, memory_cache_mb=budget / (1024.0 * 1024.0))
         fnlib.set_env(m, self.root, {"fc": (self.backend, None)})
         if warm_cache:
             for i in pre:
@@ -70,19 +77,26 @@ class Run:
             # every source line of the function that publishes a link file (two calls with equal result bytes publish the same one)
             from twosigma.memento.storage_filesystem import _FilesystemDataSource
             codes.add(_FilesystemDataSource._write_non_versioned_link.__code__)
+        elif line_mode == "memstore":
+            # every source line of the in-memory backend's own methods
+            from twosigma.memento.storage_memory import MemoryStorageBackend
+            for nm, f in vars(MemoryStorageBackend).items():
+                f = getattr(f, "__func__", f)
+                if callable(f) and hasattr(f, "__code__") and nm != "__init__":
+                    codes.add(f.__code__)
         elif line_mode:
             for nm, f in vars(MemoryCache).items():
                 f = getattr(f, "__wrapped__", f)
                 if callable(f) and hasattr(f, "__code__") and not nm.startswith("_estimate") and not nm.startswith("_pd") \
                         and not nm.startswith("_cache_key"):
                     codes.add(f.__code__)
-        if line_mode in ("mutex", "links"):
+        if line_mode in ("mutex", "links", "memstore"):
             call_files = ()                 # only the lines of the traced function and the bodies are scheduling points
         self.sched = Scheduler(codes, call_files)
         sched = self.sched
         self.cache = getattr(self.backend, "_memory_cache", None)
         for attr, label in (("_memory_cache", "cache"), ("_metadata_source", "meta"), ("_data_source", "data")):
-            if line_mode in ("mutex", "links"):
+            if line_mode in ("mutex", "links", "memstore"):
                 break
             if getattr(self.backend, attr, None) is not None:
                 setattr(self.backend, attr, PointProxy(getattr(self.backend, attr), label, sched))
@@ -120,6 +134,14 @@ class Run:
         for i, want in self.expected_execs.items():
             if counts.get(i, 0) != want:
                 bad.append(("single-flight", "body of call %d ran %d times, expected %d" % (i, counts.get(i, 0), want)))
+        if type(self.backend).__name__ == "MemoryStorageBackend" and not bad:
+            # what a sequential execution leaves in the shared tables: one memento per distinct call
+            try:
+                have = len(fnmod.n0.list_mementos())
+            except Exception as e:
+                have = "%s: %s" % (type(e).__name__, str(e)[:80])
+            if have != len(self.expected_execs):
+                bad.append(("store-after-threads", "the in-memory store lists %s mementos after the threads finished; a sequential execution leaves %d" % (have, len(self.expected_execs))))
         c = self.cache
         if c is not None:
             usage = c.memory_usage
@@ -202,22 +224,23 @@ def run(tier, seed):
         if tier == "quick":
             plan = [("cold-same", 2, 70, 0, False), ("warmstore-coldcache-same", 2, 50, 0, False), ("cold-diff-tightcache", 1, 30, 0, False),
                     ("warmcache-same", 1, 10, 0, False), ("warmstore-coldcache-same", 0, 0, 25, True), ("cold-diff-tightcache", 0, 0, 15, True),
-                    ("cold-same", 2, 320, 0, "mutex"), ("cold-equal-results-3-nocache", 2, 250, 0, "links")]
+                    ("cold-same", 2, 320, 0, "mutex"), ("cold-equal-results-3-nocache", 2, 250, 0, "links"),
+                    ("cold-diff-3-memstore", 1, 400, 0, "memstore")]
             if not gate["ok"]:      # search mode: an obligation is broken, look harder for a failing schedule
                 plan = [(n, b + 1, r * 4, rr * 4, lm) for (n, b, r, rr, lm) in plan]
         else:
-            plan = [(n, 3, 400, 0, False) for n in SCENARIOS] + [(n, 0, 0, 150, True) for n in SCENARIOS] + [(n, 2, 150, 0, "mutex") for n in ("cold-same", "cold-same-3", "mixed-3")] + [("cold-equal-results-3-nocache", 3, 1500, 0, "links")]
+            plan = [(n, 3, 400, 0, False) for n in SCENARIOS] + [(n, 0, 0, 150, True) for n in SCENARIOS] + [(n, 2, 150, 0, "mutex") for n in ("cold-same", "cold-same-3", "mixed-3")] + [("cold-equal-results-3-nocache", 3, 1500, 0, "links"), ("cold-diff-3-memstore", 2, 3000, 0, "memstore")]
         total, distinct = 0, set()
         cover = {}
         for name, bound, max_runs, random_runs, line_mode in plan:
             results, left = explore(lambda: Run(m, scratch, name, line_mode), bound, max_runs, rng, random_runs)
-            cover["%s/%s" % (name, ({"mutex": "lock-table-lines", "links": "link-writer-lines"}.get(line_mode, "line")) if line_mode else "call")] = {"schedules": len(results), "unexplored_prefixes_left": left,
+            cover["%s/%s" % (name, ({"mutex": "lock-table-lines", "links": "link-writer-lines", "memstore": "memory-backend-lines"}.get(line_mode, "line")) if line_mode else "call")] = {"schedules": len(results), "unexplored_prefixes_left": left,
                                                                        "preemption_bound": bound}
             for trace, verdicts, choices in results:
                 total += 1
                 distinct.add((name, line_mode, tuple(trace)))
                 for sig, what in verdicts:
-                    rep.violation("C09:%s:%s" % (sig, name), "scenario %s, %s granularity: %s" % (name, ({"mutex": "lock-table lines", "links": "link-writer lines"}.get(line_mode, "line")) if line_mode else "call", what),
+                    rep.violation("C09:%s:%s" % (sig, name), "scenario %s, %s granularity: %s" % (name, ({"mutex": "lock-table lines", "links": "link-writer lines", "memstore": "in-memory backend lines"}.get(line_mode, "line")) if line_mode else "call", what),
                                   {"scenario": name, "granularity": "line" if line_mode else "call", "choices": choices,
                                    "schedule(thread, point)": trace[:200]})
                 if len(rep.samples) < 3 and len(trace) > 8:
